@@ -507,7 +507,7 @@ class Interp:
         n_iter = 0
         for v in self.iterate(it):
             n_iter += 1
-            if n_iter > self.hooks.get("max_unroll_for", 64):
+            if n_iter > self.hooks.get("max_unroll_for", 24):
                 raise Unsupported(f"for loop at line {node.lineno} needs an invariant (unrolled {n_iter - 1} times)")
             self.assign(node.target, v, frame)
             try:
